@@ -82,6 +82,18 @@ def _spoil(ch: core.Chooser, desc: dict) -> dict:
     return d
 
 
+def _reorder_names(desc: dict) -> dict:
+    """The same polynomials with their indeterminates listed in the opposite order (names and exponent columns
+    reversed together): legal, and not what alignment produces."""
+    d = json.loads(json.dumps(desc))
+    for a in d["args"]:
+        if isinstance(a, dict) and isinstance(a.get("poly"), dict) and len(a["poly"].get("names", [])) >= 2:
+            lit = a["poly"]
+            lit["names"] = lit["names"][::-1]
+            lit["exponents"] = [e[::-1] for e in lit["exponents"]]
+    return d
+
+
 def _retype(ch: core.Chooser, desc: dict) -> dict:
     """Other coefficient dtypes for polynomial arguments (a conversion that is a no-op for one dtype hands the
     argument's own memory on: 'copy only if needed' goes wrong exactly for the dtype that needs no copy)."""
@@ -127,6 +139,8 @@ def generate(rs: int, tier: str, index: int) -> dict:
         desc = _retype(c.sub("retype"), desc)
         if c.sub("alias").chance(0.08):
             desc = dict(desc, alias=True)
+        if c.sub("names").chance(0.12):
+            desc = _reorder_names(desc)
         if c.sub("view").chance(0.12):
             desc = dict(desc, view=c.sub("view").choice(["T", "rev"]))
         step: Dict[str, Any] = {"id": i, "op": desc}
